@@ -431,6 +431,53 @@ func escapedIdentifierEndGuarded(p *Prog, rule string) *RuleResult {
 			}
 		}
 	})
+	// marker form: the guard compares a printer field with len(p.js); a printer method that stores that
+	// field after comparing the last byte with a constant "tests" that byte on the guard's behalf, provided
+	// every identifier printer calls it
+	guardFields := map[string]bool{}
+	eachInstr(guard, func(b *ssa.BasicBlock, in ssa.Instruction) {
+		if fa, ok := in.(*ssa.FieldAddr); ok && namedTypeName(fa.X.Type()) == "js_printer.printer" {
+			guardFields[fieldAddrName(fa)] = true
+		}
+	})
+	for _, fn := range p.ModuleFuncs() {
+		if pkgPathOf(fn) != modPath+"/internal/js_printer" || fn == guard {
+			continue
+		}
+		storesMarker := false
+		eachInstr(fn, func(b *ssa.BasicBlock, in ssa.Instruction) {
+			if st, ok := in.(*ssa.Store); ok {
+				if fa, ok := st.Addr.(*ssa.FieldAddr); ok && namedTypeName(fa.X.Type()) == "js_printer.printer" && guardFields[fieldAddrName(fa)] && fieldAddrName(fa) != "js" {
+					storesMarker = true
+				}
+			}
+		})
+		if !storesMarker {
+			continue
+		}
+		// the marker setter must be reached from every identifier printer method
+		all := true
+		for _, ip := range p.ModuleFuncs() {
+			if pkgPathOf(ip) != modPath+"/internal/js_printer" || !strings.HasPrefix(ip.Name(), "printIdentifier") {
+				continue
+			}
+			calls := false
+			eachInstr(ip, func(b *ssa.BasicBlock, in ssa.Instruction) {
+				if c, ok := in.(*ssa.Call); ok && c.Call.StaticCallee() == fn {
+					calls = true
+				}
+			})
+			if ip == fn {
+				calls = true
+			}
+			if !calls {
+				all = false
+			}
+		}
+		if all {
+			collect(fn)
+		}
+	}
 	isIdentByte := func(c byte) bool {
 		return c == '_' || c == '$' || (c >= '0' && c <= '9') || (c >= 'a' && c <= 'z') || (c >= 'A' && c <= 'Z')
 	}
@@ -481,7 +528,7 @@ func escapedIdentifierEndGuarded(p *Prog, rule string) *RuleResult {
 		r.Instances++
 		key := fmt.Sprintf("an escaped identifier can end in %q: the gluing test looks for it", string(last))
 		if tested[int64(last)] {
-			r.OK(key, true, "printSpaceBeforeIdentifier (or a helper it calls) compares the last byte with it")
+			r.OK(key, true, "printSpaceBeforeIdentifier compares the last byte with it, directly or through a marker that every identifier printer sets after comparing the last byte with it")
 		} else {
 			r.Fail(key, pos, fmt.Sprintf("with the ASCII charset an identifier can end in %q (escape format at %s), which printSpaceBeforeIdentifier does not recognise as the end of an identifier: a following keyword is glued on (`\\u{2F800}in y` is one identifier followed by `y`)", string(last), pos))
 		}
